@@ -457,6 +457,16 @@ func c12Run(c *Ctx, cs c12Case) {
 				if cs.PacketSize > 0 && crnd.Chance(1, 2) {
 					n = crnd.Range(cs.PacketSize-200, 3*cs.PacketSize) // full packets of the announced size
 				}
+				if crnd.Chance(1, 4) {
+					// a request that fills its last packet exactly (the
+					// message is ended by a header-only packet): the token,
+					// the 4-byte length and the status byte are 6 bytes
+					ps := cs.PacketSize
+					if ps == 0 {
+						ps = 512
+					}
+					n = crnd.Range(1, 3)*(ps-8) - 6
+				}
 				return ch.SendPackage(ctx, &tds.LanguagePackage{Cmd: strings.Repeat("q", n)})
 			}
 			if cs.TwoGor {
